@@ -357,8 +357,11 @@ class Check:
         ev = {"property_id": self.prop, "tier": self.tier, "seed": self.seed, "level": "proof", "coverage": cov,
               "assumptions": self.assumptions, "wall_s": round(time.time() - self.t0, 2),
               "violations": len(self.violations)}
-        (ROOT / "evidence").mkdir(exist_ok=True)
-        (ROOT / "evidence" / f"{self.prop}.json").write_text(json.dumps(ev, indent=1, default=str, ensure_ascii=False))
+        # evidence describes /repo itself: a run pointed at another tree (seeded change, scratch worktree) keeps its
+        # record outside /verif
+        evdir = ROOT / "evidence" if REPO == Path("/repo") else Path("/var/tmp/verif-evidence-other-tree")
+        evdir.mkdir(exist_ok=True, parents=True)
+        (evdir / f"{self.prop}.json").write_text(json.dumps(ev, indent=1, default=str, ensure_ascii=False))
 
 
 def main(argv=None) -> int:
